@@ -79,6 +79,18 @@ def systematic():
                                 Variant("Second", shapes[1], [], [ser(y)] + ([aci(True, explicit=True)] if fb else []))], metas=[EM("phf")])
                 ov.overlap_family = True       # spellings overlap on purpose: declaration order decides, with and without the map
                 items.append(ov)
+    # MANY spellings on one variant (17, 20, 33): the variant's own flag decides, whatever the enum says
+    for eflag in (False, True):
+        for nsp in (17, 20, 33):
+            vs = []
+            for j, vf in enumerate((None, True, False, "bare")):
+                ms = [ser("Alias%d-%02d" % (j, q)) for q in range(nsp)]
+                if vf == "bare":
+                    ms.insert(3, aci(True, explicit=False))
+                elif vf is not None:
+                    ms.insert(5, aci(vf, explicit=True))
+                vs.append(Variant("Many%d" % j, "unit", [], ms))
+            items.append(Item("E", vs, metas=[EM("aci")] if eflag else []))
     # identifiers as spellings, with serialize_all
     for eflag in (False, True):
         for sty in ("snake_case", "SCREAMING-KEBAB-CASE", None):
